@@ -7,7 +7,7 @@ Extraction Language OCaml.
 Extraction "model.ml"
   Byte.of_N Byte.to_N N.add N.mul N.div_eucl N.compare Z.add Z.mul Z.opp Z.compare Z.div_eucl
   bytes_cmp id_cmp
-  World.step World.empty_world World.run
+  World.step World.empty_world World.run World.world_digest
   Message.decode Message.encode Message.serialized_len Message.digest_len
   Chitchat.create_syn_message Chitchat.scheduled Chitchat.live_nodes Chitchat.dead_nodes
   Chitchat.own_copy Chitchat.compute_delta NodeState.into_status
